@@ -237,7 +237,7 @@ func assertDischarged(p *Prog, T *Terms, x *ssa.TypeAssert) (bool, string) {
 				var bad []string
 				for _, g := range p.Funcs {
 					for _, cs := range callsIn(g, false) {
-						if cs.Common.StaticCallee() != f || idx >= len(cs.Common.Args) {
+						if cs.Common.StaticCallee() != origFn(f) || idx >= len(cs.Common.Args) {
 							continue
 						}
 						sites++
